@@ -81,8 +81,11 @@ FinalPage(u, d, inl) == LET c == Chain(u, 0, d, inl) IN IF S.kind[Last(c)] = "pa
 \* (nf = FALSE ignores the nofollow declaration: used only to tell a nofollow violation from a scope violation)
 LinksOf(u, d, inl, nf) ==
   LET p == FinalPage(u, d, inl) IN
-    IF p = 0 THEN {}
-    ELSE {k \in Range(S.links) : k[1] = p /\ ~(nf /\ RobotsOn /\ S.nofollow[p] = 1 /\ k[3] = 0)}
+    \* implicit children (--sitemaps: /robots.txt and /sitemap.xml of a start URL's origin) belong to the ITEM: they are
+    \* recorded before its first request, whatever that request yields
+    {k \in Range(S.links) : k[1] = u /\ k[4] = 1 /\ d = 0}
+    \cup (IF p = 0 THEN {}
+          ELSE {k \in Range(S.links) : k[1] = p /\ k[4] = 0 /\ ~(nf /\ RobotsOn /\ S.nofollow[p] = 1 /\ k[3] = 0)})
 
 \* breadth-first layers: set of <<u, depth, inline>>, each URL with its shortest in-scope depth
 RECURSIVE Layers(_, _, _, _)
